@@ -1,6 +1,7 @@
 import BqVerif.Model.Accept
 import BqVerif.Model.AcceptGrid
 import BqVerif.Model.CircBlocks
+import BqVerif.Model.Mux
 import BqVerif.Drivers.Util
 /- Driver for the `accept` machine (C10): the scanning / tree-scanning / exhaustive removal loops run
 with a SCRIPTED threshold oracle, and the timeline comparison used for the structural passes.
@@ -13,7 +14,9 @@ Requests:
   exh | ops… | seed m k                                      → surviving tags
   sametl n | gid:q,q… … | gid:q,q… …                         → 1 / 0
   gtc left|right orig | cycle / cycle / … (ops tag:q,q) | cyc:q cyc:q …  → get_tree_circs on the grid:
-                                                               `raise` or the tag lists `a b c ; …` -/
+                                                               `raise` or the tag lists `a b c ; …`
+  movelast t | q q q …                                       → MGDPass.run's re-ordered location / `raise`
+  muxact t | q q q … | b b b … (bits of a basis state, qudit 0 first) → `k tg` (angle index, target qudit) -/
 namespace BqVerif.Drv.Accept
 open BqVerif.Accept BqVerif.Drv
 
@@ -88,6 +91,17 @@ def step (line : String) : String :=
   | [["sametl", n], l1, l2] =>
     (match n.toNat?, l1.mapM parseTlOp, l2.mapM parseTlOp with
      | some n, some l1, some l2 => if BqVerif.Circ.sameTimelines n l1 l2 then "1" else "0"
+     | _, _, _ => "bad-op")
+  | [["movelast", t], loc] =>
+    (match t.toNat?, nats loc with
+     | some t, some loc => (match BqVerif.Mux.moveLast loc t with
+        | none => "raise" | some r => showList r)
+     | _, _ => "bad-op")
+  | [["muxact", t], loc, bits] =>
+    (match t.toNat?, nats loc, nats bits with
+     | some t, some loc, some bits =>
+       (match BqVerif.Mux.act loc t (fun q => bits.getD q 0 == 1) with
+        | none => "raise" | some (k, tg) => s!"{k} {tg}")
      | _, _, _ => "bad-op")
   | _ => "bad-op"
 
